@@ -47,6 +47,7 @@ const (
 	CancelExternal
 	CancelInTask // the task CancelTask cancels from inside its body
 	CancelInElem // the CancelOrd-th started element call of collection CancelTask cancels from inside its body
+	CancelInPred // the predicate of task CancelTask cancels from inside its body (and then returns what the plan says)
 )
 
 // CollD fixes one collection of a Parallel execution.
@@ -269,6 +270,8 @@ type execRun struct {
 	ctxBad            int
 	elemOrd           [64]int // started element calls per collection
 	sharedErr         *userErr
+	propErr           [64]error // per task: the annotated error of the directive nested in it, if that failed
+	lastErr           error     // what the directive returned (set when the call returns, before the harness's bookkeeping step)
 	memo              []memoEnt // identity-carrying errors and panic values handed out (no maps: the race detector sees map internals)
 	callerSlot        int
 
@@ -422,6 +425,9 @@ func (x *execRun) isReturned() bool { return x.returned }
 func (x *execRun) isStarted() bool { return x.started }
 
 //go:norace
+func (x *execRun) setLastErr(e error) { x.lastErr = e }
+
+//go:norace
 func (x *execRun) setCallerSlot(i int) { x.callerSlot = i }
 
 //go:norace
@@ -468,6 +474,11 @@ func (h *hh) body(kind, id, ord int, ctx context.Context, startKind, endKind int
 			if sim.Aborted() {
 				return nil
 			}
+			if cerr := ch.retErr(); cerr != nil && outcome == progen.Err {
+				// the task fails because the directive it ran failed, and says so: it
+				// returns that error, annotated (a value of its own that wraps it)
+				x.setPropErr(id, &wrapErr{exec: x.idx, id: id, inner: cerr})
+			}
 		}
 	}
 	if stuck {
@@ -487,6 +498,9 @@ func (h *hh) body(kind, id, ord int, ctx context.Context, startKind, endKind int
 	switch outcome {
 	case progen.Err:
 		x.count(&x.errFired)
+		if kind == 0 {
+			return x.taskErr(id)
+		}
 		return x.errOf(kind, id, ord)
 	case progen.Panic:
 		x.count(&x.panicFired)
@@ -496,6 +510,43 @@ func (h *hh) body(kind, id, ord int, ctx context.Context, startKind, endKind int
 		runtime.Goexit()
 	}
 	return nil
+}
+
+// wrapErr is what a task returns when the directive it ran inside its body
+// failed: an error value of the task's own that wraps the nested directive's.
+type wrapErr struct {
+	exec, id int
+	inner    error
+}
+
+func (e *wrapErr) Error() string {
+	return fmt.Sprintf("task %d of exec %d: nested directive failed: %v", e.id, e.exec, e.inner)
+}
+func (e *wrapErr) Unwrap() error { return e.inner }
+
+//go:norace
+func (x *execRun) setPropErr(id int, e error) {
+	if id >= 0 && id < len(x.propErr) {
+		x.propErr[id] = e
+	}
+}
+
+// taskErr is the error value task id returns when it fails.
+//
+//go:norace
+func (x *execRun) taskErr(id int) error {
+	if id >= 0 && id < len(x.propErr) && x.propErr[id] != nil {
+		return x.propErr[id]
+	}
+	return x.errOf(0, id, 0)
+}
+
+//go:norace
+func (x *execRun) retErr() error {
+	if !x.returned && x.err == nil {
+		return x.lastErr
+	}
+	return x.err
 }
 
 // throw panics with v; the runtimePanic marker becomes a real runtime error.
@@ -574,6 +625,18 @@ func (h *hh) Pred(id int, ctx context.Context, in ...uint64) bool {
 	}
 	for k := 0; k < x.d.Len[1000+id]; k++ {
 		sim.Yield(engine.HsStep)
+	}
+	if x.d.Stuck[1000+id] {
+		sim.Hold(engine.HoldFlag, flagReturned(x.idx), 0) // a predicate that takes its time: held until the directive has returned
+	}
+	if sim.Aborted() {
+		return false
+	}
+	if x.d.CancelMode == CancelInPred && x.d.CancelTask == id {
+		x.log(EvCancel, 1000+id, 0, nil, 0, 0)
+		x.count(&x.cancelFired)
+		x.getCancel()()
+		sim.Yield(engine.HsAfter)
 	}
 	x.log(EvPredEnd, id, 0, nil, 0, 0)
 	x.leave()
@@ -852,7 +915,7 @@ func (e *recSched) note(s cff.SchedulerState) {
 			x.nbad++
 		}
 	}
-	if e.k == 0 && x.returned && x.err == nil && x.ctxErrAtRet == nil {
+	if e.k == 0 && x.returned && x.err == nil {
 		x.statesAfterRet++
 	}
 }
@@ -865,6 +928,9 @@ func (t *recTask) TaskErrorRecovered(_ context.Context, err error) {
 	t.e.rec(EmTaskErrorRecovered, t.name, err, nil)
 }
 func (t *recTask) TaskSkipped(_ context.Context, err error) {
+	if t.e.x.d.SlowEmit && t.e.k == 0 {
+		t.e.x.r.sim.Yield(engine.HsMisc) // a slow emitter: whoever reports the skip is held for a step
+	}
 	t.e.rec(EmTaskSkipped, t.name, err, nil)
 }
 func (t *recTask) TaskPanic(_ context.Context, pv any) { t.e.rec(EmTaskPanic, t.name, nil, pv) }
@@ -935,6 +1001,7 @@ func (r *runner) runExec(x *execRun, parent context.Context) {
 	}()
 	ctxErr := ctx.Err()
 	sim.SwapTag(oldTag)
+	x.setLastErr(err)
 	sim.Yield(engine.HsRet)
 	if sim.Aborted() {
 		return
@@ -1048,7 +1115,7 @@ func Exec(t *testing.T, d *Desc, replay, keepTrace bool, states map[uint64]struc
 	if d.Prop == "C03" {
 		sim.CountEvery = 16
 	}
-	if d.Prop == "C03scale" || d.Prop == "C10scale" || d.Prop == "C10scale8" || d.Prop == "C19scale" {
+	if d.Prop == "C03scale" || d.Prop == "C05scale" || d.Prop == "C10scale" || d.Prop == "C10scale8" || d.Prop == "C19scale" {
 		sim.CountEvery = 1024
 	}
 	if replay {
